@@ -37,16 +37,36 @@ type SyncPipeline struct {
 	OutputNames []string
 	Chunks      [][]*base.LogChunk // per output
 	FallbackTS  time.Time
+	Observe     func(stage string, rec *base.LogRecord) // optional: called after parsing ("parsed") and after the transforms ("transformed")
+}
+
+// SyncOptions tune NewSyncPipelineOpt.
+type SyncOptions struct {
+	Allocator   *base.LogAllocator // share an allocator (nil = own)
+	NoChunks    bool               // do not create chunk makers (serialized streams only)
+	MetricName  string             // metric prefix (default "sp_")
 }
 
 // NewSyncPipeline instantiates everything from an accepted configuration.
 func NewSyncPipeline(conf run.Config, schema base.LogSchema, tag string) (*SyncPipeline, error) {
+	return NewSyncPipelineOpt(conf, schema, tag, SyncOptions{})
+}
+
+// NewSyncPipelineOpt is NewSyncPipeline with options.
+func NewSyncPipelineOpt(conf run.Config, schema base.LogSchema, tag string, opt SyncOptions) (*SyncPipeline, error) {
 	if len(conf.Inputs) == 0 {
 		return nil, fmt.Errorf("no inputs")
 	}
 	p := &SyncPipeline{Conf: conf, Schema: schema, FallbackTS: time.Unix(1700000000, 0)}
-	p.Allocator = base.NewLogAllocator(schema, len(conf.OutputBuffersPairs))
-	p.MF = promreg.NewMetricFactory("sp_", nil, nil)
+	p.Allocator = opt.Allocator
+	if p.Allocator == nil {
+		p.Allocator = base.NewLogAllocator(schema, len(conf.OutputBuffersPairs))
+	}
+	prefix := opt.MetricName
+	if prefix == "" {
+		prefix = "sp_"
+	}
+	p.MF = promreg.NewMetricFactory(prefix, nil, nil)
 	p.InputCount = base.NewLogInputCounter(p.MF.AddOrGetPrefix("input_", nil, nil))
 	parser, err := conf.Inputs[0].Value.NewParser(logger.Root(), p.Allocator, schema, p.InputCount)
 	if err != nil {
@@ -60,7 +80,9 @@ func NewSyncPipeline(conf run.Config, schema base.LogSchema, tag string) (*SyncP
 	p.Transforms = bsupport.NewTransformsFromConfig(conf.Transformations, schema, logger.Root(), p.ProcCount)
 	for _, pair := range conf.OutputBuffersPairs {
 		p.Serializers = append(p.Serializers, pair.OutputConfig.Value.NewSerializer(logger.Root(), schema, tag))
-		p.ChunkMakers = append(p.ChunkMakers, pair.OutputConfig.Value.NewChunkMaker(logger.Root(), tag))
+		if !opt.NoChunks {
+			p.ChunkMakers = append(p.ChunkMakers, pair.OutputConfig.Value.NewChunkMaker(logger.Root(), tag))
+		}
 	}
 	p.Chunks = make([][]*base.LogChunk, len(p.ChunkMakers))
 	return p, nil
@@ -81,6 +103,9 @@ func (p *SyncPipeline) Process(line []byte) ProcResult {
 		return r
 	}
 	r.Parsed = true
+	if p.Observe != nil {
+		p.Observe("parsed", record)
+	}
 	icounter := p.ProcCount.SelectMetricKeySet(record)
 	if bsupport.RunTransforms(record, p.Transforms) == base.DROP {
 		icounter.CountRecordDrop(record)
@@ -89,14 +114,19 @@ func (p *SyncPipeline) Process(line []byte) ProcResult {
 	}
 	icounter.CountRecordPass(record)
 	r.Passed = true
+	if p.Observe != nil {
+		p.Observe("transformed", record)
+	}
 	for i, ser := range p.Serializers {
 		stream := ser.SerializeRecord(record)
 		p.Allocator.Release(record)
 		p.ProcCount.CountStream(i, stream)
 		r.Streams = append(r.Streams, append([]byte(nil), stream...))
-		if ch := p.ChunkMakers[i].WriteStream(stream); ch != nil {
-			p.ProcCount.CountChunk(i, ch)
-			p.Chunks[i] = append(p.Chunks[i], ch)
+		if i < len(p.ChunkMakers) {
+			if ch := p.ChunkMakers[i].WriteStream(stream); ch != nil {
+				p.ProcCount.CountChunk(i, ch)
+				p.Chunks[i] = append(p.Chunks[i], ch)
+			}
 		}
 	}
 	if len(p.Serializers) == 0 {
